@@ -12,7 +12,7 @@ from . import cellsdrv as CD, geoworlds as GW, worlds as W
 from .project import BADINT, outcome, polygon_vertices
 from .worlds import MISSING
 
-PHYS = [5, 15, 30, 50, 80, 120, 170]
+PHYS = [5, 15, 30, 50, 80, 120, 170] + [170 + 10 * k for k in range(1, 141)]      # (up to 147 layers)
 DEPTH_NAMES = {"shoc_standard": [("z_centre", "k_centre"), ("z_grid", "k_grid"), ("z_centre_sed", "k_centre_sed"), ("z_grid_sed", "k_grid_sed")],
                "shoc_simple": [("zc", "k"), ("zcsed", "ksed")]}
 GENERIC_NAMES = [("depth", "k"), ("depth_w", "kw")]
@@ -214,7 +214,9 @@ def execute(case: dict) -> dict:
                         cc = conv_of(c)
                         r = cc.normalize_depth_variables(positive_down=opt[e["pd"]], deep_to_shallow=opt[e["d2s"]])
                     else:
-                        r = depth.normalize_depth_variables(c, names, positive_down=opt[e["pd"]], deep_to_shallow=opt[e["d2s"]])
+                        # (the function takes any iterable of coordinates: a list, or a one-shot iterator / generator)
+                        given = names if e.get("spelling", "list") == "list" else (iter(names) if e["spelling"] == "iter" else (n for n in names))
+                        r = depth.normalize_depth_variables(c, given, positive_down=opt[e["pd"]], deep_to_shallow=opt[e["d2s"]])
                 out = {"D": proj_D(w, r), "input": proj_D(w, c), "warned": len(caught) > 0}
                 cur = r
                 return out
@@ -272,6 +274,12 @@ def execute(case: dict) -> dict:
 def cases(tier: str, seed: int, *, kinds=("norm", "floor")) -> list[dict]:
     out = _cases(tier, seed, kinds=kinds)
     vias = ["memory", "file", "memory", "dask", "emsopen"]       # how the dataset is held (viafile.hold)
+    nf = 0
+    for c in out:
+        for e in c["events"]:
+            if e["a"] == "Normalize" and e["via"] == "function":
+                e["spelling"] = ["list", "iter", "generator"][nf % 3]
+                nf += 1
     for k, c in enumerate(out):
         c["world"]["via"] = c["world"].get("pin_via") or vias[k % len(vias)]
         if k % 3 == 1:
@@ -348,6 +356,12 @@ def _cases(tier: str, seed: int, *, kinds=("norm", "floor")) -> list[dict]:
                 {"a": "Touch", "via": "accessor"}, {"a": "Save", "via": "accessor"},
                 {"a": "Normalize", "pd": "no", "d2s": "none", "via": "accessor"}, {"a": "Save", "via": "accessor"},
                 {"a": "Normalize", "pd": "yes", "d2s": "yes", "via": "function"}, {"a": "Save", "via": "accessor"}]})
+    if "floor" in kinds:
+        # more layers than a byte can count (the floor of the first column is the very last layer)
+        for conv, down, deepfirst in (("cf2d", True, False), ("ugrid", False, True)):
+            w = make_world(conv, rng, two=False, K=140)
+            w["depths"][0] = depth_coord(w["depths"][0]["name"], w["depths"][0]["dim"], 140, down, deepfirst, True, False)
+            out.append({"src": "gen", "world": w, "events": [{"a": "OceanFloor", "via": "function"}, {"a": "OceanFloor", "via": "accessor"}]})
     # three depth coordinates, two of them on one dimension and listed before the third
     for conv in [c for c in W.ALL_CONVS if c not in DEPTH_NAMES]:
         for rep in range(1 if tier == "quick" else 3):
